@@ -18,9 +18,9 @@ theorem body_roundtrip (sd : UInt8) (h : Header) (pdu rest : Bytes) (total : Nat
   have h1 := addr_nobit da hda
   have h2 := addr_nobit sa hsa
   cases dsap <;> cases ssap <;>
-    simp [deserializeBody, Header.body, Header.saps, optByte, fc_roundtrip, addr_or_and, addr_or_bit,
-      h1, h2, hda, hsa, List.getD_eq_getElem?_getD]
-  all_goals (rw [if_neg (by omega), if_neg (by omega), if_neg (by omega)])
+    simp [deserializeBody, takeSap, finishData, Header.body, Header.saps, optByte, fc_roundtrip,
+      addr_or_and, addr_or_bit, h1, h2, hda, hsa, List.getD_eq_getElem?_getD]
+  all_goals (first | done | (rw [if_neg (by omega), if_neg (by omega), if_neg (by omega)]) | (rw [if_neg (by omega), if_neg (by omega)]))
 
 theorem body_length (h : Header) (pdu : Bytes) : (h.body pdu).length = pdu.length + h.saps + 3 := by
   obtain ⟨da, sa, dsap, ssap, fc⟩ := h
